@@ -23,6 +23,9 @@ Definition dispatch (f : Z) (x : sx) : sx :=
   | 3 => (* positional: [items; i] *)
       let items := to_list ent_of (nth_sx 0 x) in
       of_result (of_pair A A) (kt_getpos (to_Z (nth_sx 1 x)) items)
+  | 4 => (* keys / iteration order: [items] *)
+      let items := to_list ent_of (nth_sx 0 x) in
+      L [of_list A (kt_keys fst items); of_list (of_pair A A) items]
   | _ => sx_err
   end.
 
